@@ -194,6 +194,47 @@ type wiring struct {
 	must    []string // at least one of these callees is reached
 	mustNot []string
 	why     string
+	all     bool // ... on every path to a success return (no shortcut around the primitive)
+}
+
+// everyPathCalls: no path from f's entry to a success return avoids a call of one of the named callees
+// (directly, or through a module function that reaches one).
+func (c *Ctx) everyPathCalls(f *ssa.Function, names []string) bool {
+	if len(f.Blocks) == 0 {
+		return false
+	}
+	isPrim := func(in ssa.Instruction) bool {
+		call, ok := in.(ssa.CallInstruction)
+		if !ok {
+			return false
+		}
+		cal := calleeOf(call)
+		if cal == nil {
+			return false
+		}
+		for _, m := range names {
+			if cal.String() == m {
+				return true
+			}
+		}
+		if c.inModule(cal) && cal != f {
+			cs := c.calleesOf(cal)
+			for _, m := range names {
+				if cs[m] {
+					return true
+				}
+			}
+		}
+		return false
+	}
+	succ := func(in ssa.Instruction) bool {
+		ret, ok := in.(*ssa.Return)
+		if !ok {
+			return false
+		}
+		return len(ret.Results) < 2 || isNilConst(ret.Results[len(ret.Results)-1])
+	}
+	return !pathExists(f, nil, succ, isPrim, nil)
 }
 
 func checkWiring(c *Ctx, rule string, ws []wiring) {
@@ -216,6 +257,9 @@ func checkWiring(c *Ctx, rule string, ws []wiring) {
 			}
 		}
 		c.R.Check(rule, w.name, c.P.Pos(f.Pos()), has && bad == "", fmt.Sprintf("`%s` %s: expected a call of %v (found=%v), must not call %v (found %q)", w.name, w.why, w.must, has, w.mustNot, bad))
+		if w.all && has {
+			c.R.Check(rule, w.name+":every-path", c.P.Pos(f.Pos()), c.everyPathCalls(f, w.must), fmt.Sprintf("`%s` %s on every path: there is a path to a successful return that bypasses %v (a shortcut for 'simple' inputs answers differently for the inputs it misjudges, e.g. non-ASCII letters)", w.name, w.why, w.must))
+		}
 	}
 }
 
@@ -227,18 +271,18 @@ func runC17(c *Ctx) {
 	builtinRelevance(c, "C17.param-relevance", specStringBuiltins, nil)
 	c.R.Floor("C17.param-relevance", 30)
 	checkWiring(c, "C17.antonyms", []wiring{
-		{"lower", []string{"strings.ToLower"}, []string{"strings.ToUpper", "strings.ToTitle"}, "must map to lower case"},
-		{"upper", []string{"strings.ToUpper"}, []string{"strings.ToLower"}, "must map to upper case"},
-		{"startWith", nil, []string{"strings.HasSuffix", "strings.LastIndex"}, "must test the prefix"},
-		{"endWith", nil, []string{"strings.HasPrefix"}, "must test the suffix"},
-		{"contains", []string{"strings.Contains", "strings.Index"}, nil, "must test for a substring"},
-		{"find", []string{"strings.Index"}, []string{"strings.LastIndex"}, "must return the FIRST index"},
-		{"trim", []string{"strings.TrimSpace", "strings.Trim"}, []string{"strings.TrimLeft", "strings.TrimRight", "strings.TrimPrefix", "strings.TrimSuffix"}, "must strip white space on both sides"},
-		{"replace", []string{"strings.ReplaceAll", "strings.Replace"}, nil, "must replace occurrences"},
-		{"join", []string{"strings.Join"}, nil, "must join"},
-		{"lpad", []string{"strings.Repeat"}, nil, "must build padding"},
-		{"rpad", []string{"strings.Repeat"}, nil, "must build padding"},
-		{"regexp", []string{"regexp.MustCompile", "regexp.Compile", "regexp.MatchString", "regexp.Match"}, []string{"regexp.CompilePOSIX", "regexp.MustCompilePOSIX"}, "must match with RE2 (package regexp) syntax"},
+		{"lower", []string{"strings.ToLower"}, []string{"strings.ToUpper", "strings.ToTitle"}, "must map to lower case", true},
+		{"upper", []string{"strings.ToUpper"}, []string{"strings.ToLower"}, "must map to upper case", true},
+		{"startWith", nil, []string{"strings.HasSuffix", "strings.LastIndex"}, "must test the prefix", false},
+		{"endWith", nil, []string{"strings.HasPrefix"}, "must test the suffix", false},
+		{"contains", []string{"strings.Contains", "strings.Index"}, nil, "must test for a substring", true},
+		{"find", []string{"strings.Index"}, []string{"strings.LastIndex"}, "must return the FIRST index", true},
+		{"trim", []string{"strings.TrimSpace", "strings.Trim"}, []string{"strings.TrimLeft", "strings.TrimRight", "strings.TrimPrefix", "strings.TrimSuffix"}, "must strip white space on both sides", true},
+		{"replace", []string{"strings.ReplaceAll", "strings.Replace"}, nil, "must replace occurrences", true},
+		{"join", []string{"strings.Join"}, nil, "must join", true},
+		{"lpad", []string{"strings.Repeat"}, nil, "must build padding", false},
+		{"rpad", []string{"strings.Repeat"}, nil, "must build padding", false},
+		{"regexp", []string{"regexp.MustCompile", "regexp.Compile", "regexp.MatchString", "regexp.Match"}, []string{"regexp.CompilePOSIX", "regexp.MustCompilePOSIX"}, "must match with RE2 (package regexp) syntax", false},
 	})
 	c.R.Floor("C17.antonyms", 12)
 	c17Shapes(c)
@@ -509,21 +553,23 @@ func runC18(c *Ctx) {
 	big := "(*" + decimalPath + ".Big)."
 	ctx := "(" + decimalPath + ".Context)."
 	checkWiring(c, "C18.antonyms", []wiring{
-		{"abs", []string{big + "Abs", ctx + "Abs"}, []string{big + "Neg"}, "must take the absolute value"},
-		{"ceil", []string{ctx + "Ceil"}, []string{ctx + "Floor"}, "must round up"},
-		{"floor", []string{ctx + "Floor"}, []string{ctx + "Ceil"}, "must round down"},
-		{"sqrt", []string{ctx + "Sqrt", big + "Sqrt"}, []string{ctx + "Pow", ctx + "Exp"}, "must take the square root"},
-		{"exp", []string{ctx + "Exp"}, []string{ctx + "Log", ctx + "Log10"}, "must compute e^x"},
-		{"ln", []string{ctx + "Log"}, []string{ctx + "Log10", ctx + "Exp"}, "must be the natural logarithm (decimal Log)"},
-		{"log", []string{ctx + "Log10"}, []string{ctx + "Log", ctx + "Exp"}, "must be the base-10 logarithm (decimal Log10)"},
-		{"min", []string{decimalPath + ".Min", big + "Cmp"}, []string{decimalPath + ".Max"}, "must select the smallest argument"},
-		{"max", []string{decimalPath + ".Max", big + "Cmp"}, []string{decimalPath + ".Min"}, "must select the largest argument"},
-		{"round", []string{big + "RoundToInt", big + "Quantize", ctx + "RoundToInt", ctx + "Quantize", big + "Round"}, nil, "must round"},
-		{"toInt", []string{big + "Int64", big + "Int", ctx + "RoundToInt", big + "RoundToInt", big + "Quantize"}, nil, "must take the integer part"},
+		{"abs", []string{big + "Abs", ctx + "Abs"}, []string{big + "Neg"}, "must take the absolute value", true},
+		{"ceil", []string{ctx + "Ceil"}, []string{ctx + "Floor"}, "must round up", true},
+		{"floor", []string{ctx + "Floor"}, []string{ctx + "Ceil"}, "must round down", true},
+		{"sqrt", []string{ctx + "Sqrt", big + "Sqrt"}, []string{ctx + "Pow", ctx + "Exp"}, "must take the square root", true},
+		{"exp", []string{ctx + "Exp"}, []string{ctx + "Log", ctx + "Log10"}, "must compute e^x", true},
+		{"ln", []string{ctx + "Log"}, []string{ctx + "Log10", ctx + "Exp"}, "must be the natural logarithm (decimal Log)", true},
+		{"log", []string{ctx + "Log10"}, []string{ctx + "Log", ctx + "Exp"}, "must be the base-10 logarithm (decimal Log10)", true},
+		{"min", []string{decimalPath + ".Min", big + "Cmp"}, []string{decimalPath + ".Max"}, "must select the smallest argument", false},
+		{"max", []string{decimalPath + ".Max", big + "Cmp"}, []string{decimalPath + ".Min"}, "must select the largest argument", false},
+		{"round", []string{big + "RoundToInt", big + "Quantize", ctx + "RoundToInt", ctx + "Quantize", big + "Round"}, nil, "must round", true},
+		{"toInt", []string{big + "Int64", big + "Int", ctx + "RoundToInt", big + "RoundToInt", big + "Quantize"}, nil, "must take the integer part", true},
 	})
 	c.R.Floor("C18.antonyms", 11)
 	c18MaxPolarity(c)
 	c18BitOps(c)
+	c18IntegerResultsExact(c)
+	c18ToStringText(c)
 	c18RoundDirection(c)
 	// max / min hand back one of their arguments
 	for _, name := range []string{"max", "min"} {
@@ -847,6 +893,9 @@ func runC19(c *Ctx) {
 			}
 		})
 		c.R.Check(rule, "addDate", c.P.Pos(f.Pos()), ok, "`addDate(t,y,m,d)` must return t.AddDate(y, m, d) with the shifts in that order")
+		if ok {
+			c.R.Check(rule, "addDate:every-path", c.P.Pos(f.Pos()), c.everyPathCalls(f, []string{"(time.Time).AddDate"}), "`addDate` must shift civil fields (t.AddDate) on every path: a shortcut such as t.Add(d*24h) shifts the instant instead, which lands on another wall-clock time across a daylight-saving change")
+		}
 	}
 	// extractors
 	for _, spec := range []struct{ name, method string }{{"year", "Year"}, {"month", "Month"}, {"day", "Day"}, {"hour", "Hour"}, {"minute", "Minute"}, {"second", "Second"}, {"weekDay", "Weekday"}} {
@@ -875,14 +924,25 @@ func runC19(c *Ctx) {
 		})
 		c.R.Check(rule, spec.name, c.P.Pos(f.Pos()), ok, "`"+spec.name+"(t)` must return t."+spec.method+"() of its own argument, unmodified; "+why)
 	}
-	// millSecond: UnixMilli, or UnixNano / 1e6, or Unix*1000
+	// millSecond: UnixMilli, or UnixNano / 1e6 (Unix()*1000 drops the milliseconds)
 	if f := c.BuiltinFn("millSecond"); f != nil {
 		ok := false
+		nret, nok := 0, 0
 		instrs(f, func(b *ssa.BasicBlock, i int, in ssa.Instruction) {
 			ret, isR := in.(*ssa.Return)
 			if !isR {
 				return
 			}
+			if len(ret.Results) == 2 && !isNilConst(ret.Results[1]) {
+				return
+			}
+			nret++
+			ok = false
+			defer func() {
+				if ok {
+					nok++
+				}
+			}()
 			switch x := ret.Results[0].(type) {
 			case *ssa.Call:
 				if cal := calleeOf(x); cal != nil && cal.String() == "(time.Time).UnixMilli" && x.Call.Args[0] == ssa.Value(f.Params[0]) {
@@ -897,13 +957,12 @@ func runC19(c *Ctx) {
 						ok = true
 					case calleeOf(call).String() == "(time.Time).UnixMicro" && x.Op == token.QUO && n == 1000:
 						ok = true
-					case calleeOf(call).String() == "(time.Time).Unix" && x.Op == token.MUL && n == 1000:
-						ok = true
 					}
 				}
 			}
 		})
-		c.R.Check(rule, "millSecond", c.P.Pos(f.Pos()), ok, "`millSecond(t)` must be t's Unix time in milliseconds (UnixMilli, UnixNano/1e6 or Unix*1000)")
+		ok = nret > 0 && nok == nret
+		c.R.Check(rule, "millSecond", c.P.Pos(f.Pos()), ok, "`millSecond(t)` must be t's Unix time in milliseconds (UnixMilli, UnixMicro/1e3 or UnixNano/1e6) on every path; Unix()*1000 drops the millisecond part")
 	}
 	// useTimezone
 	if f := c.BuiltinFn("useTimezone"); f != nil {
@@ -930,14 +989,21 @@ func runC19(c *Ctx) {
 	}
 	if f := c.BuiltinFn("timeFormat"); f != nil {
 		ok := false
+		bad := false
 		instrs(f, func(b *ssa.BasicBlock, i int, in ssa.Instruction) {
 			if ret, isR := in.(*ssa.Return); isR {
+				if len(ret.Results) == 2 && !isNilConst(ret.Results[1]) {
+					return
+				}
+				if _, isC := ret.Results[0].(*ssa.Call); !isC {
+					bad = true
+				}
 				if call, isC := ret.Results[0].(*ssa.Call); isC && calleeOf(call) != nil && calleeOf(call).String() == "(time.Time).Format" && call.Call.Args[0] == ssa.Value(f.Params[0]) && call.Call.Args[1] == ssa.Value(f.Params[1]) {
 					ok = true
 				}
 			}
 		})
-		c.R.Check(rule, "timeFormat", c.P.Pos(f.Pos()), ok, "`timeFormat(t, layout)` must be t.Format(layout)")
+		c.R.Check(rule, "timeFormat", c.P.Pos(f.Pos()), ok && !bad, "`timeFormat(t, layout)` must be t.Format(layout)")
 	}
 	// clock
 	if f := c.BuiltinFn("now"); f != nil {
@@ -988,4 +1054,87 @@ func runC19(c *Ctx) {
 		c.R.Check(rule, "toDay", c.P.Pos(f.Pos()), ok && nnow == 1, "`toDay()` must be the local midnight of ONE reading of the clock: time.Date(now.Year(), now.Month(), now.Day(), 0,0,0,0, time.Local)")
 	}
 	c.R.Floor(rule, 14)
+}
+
+// c18IntegerResultsExact: the integer computed by `& | ^ ~` and toInt is a 64-bit value; it must become a number exactly
+// (SetMantScale / SetUint64 / SetString). A conversion through float64 keeps 53 bits: 9007199254740993 | 0 and
+// toInt(9007199254740993) would yield 9007199254740992.
+func c18IntegerResultsExact(c *Ctx) {
+	const rule = "C18.integer-results-exact"
+	type site struct {
+		name string
+		f    *ssa.Function
+	}
+	var sites []site
+	if barms, und := c.binaryDispatch(); und == "" {
+		for _, spec := range [][2]string{{"SK_Ampersand", "&"}, {"SK_Bar", "|"}, {"SK_Caret", "^"}} {
+			if h := barms[c.SK(spec[0])].Handler; h != nil {
+				sites = append(sites, site{spec[1], h})
+			}
+		}
+	}
+	if parms, _ := c.prefixDispatch(); parms != nil {
+		if h := parms[c.SK("SK_Tilde")].Handler; h != nil {
+			sites = append(sites, site{"~", h})
+		}
+	}
+	if f := c.BuiltinFn("toInt"); f != nil {
+		sites = append(sites, site{"toInt", f})
+	}
+	for _, s := range sites {
+		bad := ""
+		instrs(s.f, func(b *ssa.BasicBlock, i int, in ssa.Instruction) {
+			if cv, ok := in.(*ssa.Convert); ok && isFloatType(cv.Type()) && is64BitInt(cv.X.Type()) {
+				bad = c.P.InstrPos(in)
+			}
+		})
+		c.R.Check(rule, s.name, c.P.Pos(s.f.Pos()), bad == "", "the 64-bit integer result of `"+s.name+"` is converted to "+"float64 at "+bad+" on its way into the number: above 2^53 the low bits are lost (9007199254740993 becomes 9007199254740992)")
+	}
+	c.R.Floor(rule, 4)
+}
+
+// c18ToStringText: the text of a number is the decimal library's own rendering of it, returned as it is. Any string
+// surgery afterwards (trimming zeros, cutting at a width) must know about exponent notation ("1.5E+10") and signs to
+// keep the text a spelling of the same number; none is needed, so none is allowed.
+func c18ToStringText(c *Ctx) {
+	const rule = "C18.toString-text"
+	f := c.BuiltinFn("toString")
+	if f == nil {
+		return
+	}
+	// the converter: toString itself or the module function it hands its argument to
+	conv := f
+	instrs(f, func(b *ssa.BasicBlock, i int, in ssa.Instruction) {
+		if call, ok := in.(*ssa.Call); ok {
+			if cal := calleeOf(call); cal != nil && c.inModule(cal) && len(call.Call.Args) == 1 && call.Call.Args[0] == ssa.Value(f.Params[0]) {
+				conv = cal
+			}
+		}
+	})
+	if len(conv.Params) == 0 {
+		c.R.Undecided(rule, "converter", c.P.Pos(f.Pos()), "toString's converter takes no argument")
+		return
+	}
+	v := conv.Params[len(conv.Params)-1]
+	r := c.foldWith(conv, 0, pinTypeCase(v, "*decimal.Big"))
+	good := len(r.Returns) > 0
+	why := ""
+	for _, ret := range r.Returns {
+		call, ok := ret.Results[0].(*ssa.Call)
+		if !ok {
+			good, why = false, "returns "+describeValue(ret.Results[0])
+			continue
+		}
+		cal := calleeOf(call)
+		name := ""
+		if cal != nil {
+			name = cal.String()
+		}
+		switch name {
+		case "(*" + decimalPath + ".Big).String", "fmt.Sprint", "fmt.Sprintf":
+		default:
+			good, why = false, "returns the result of "+name
+		}
+	}
+	c.R.Check(rule, c.P.FuncKey(conv), c.P.Pos(conv.Pos()), good, "the text of a number must be the decimal's own rendering (String()), returned unmodified; "+why+": post-processing the text breaks numbers rendered in exponent notation (1.5E+10 -> 1.5E+1)")
 }
